@@ -48,4 +48,433 @@ theorem cut_append {buf line rest} (h : cutLine buf = some (line, rest)) (more :
         simp at h; obtain ⟨rfl, rfl⟩ := h
         simp [cutLine, hb, ih h']
 
+/-! ### algebra of the spec -/
+
+theorem specLines_append (a b : Bytes) (off : Nat) (cur : Bytes) :
+    specLines (a ++ b) off cur
+      = specLines a off cur ++ specLines b (off + a.length) (specTail a cur) := by
+  induction a generalizing off cur with
+  | nil => simp [specLines, specTail]
+  | cons x xs ih =>
+    by_cases hx : x = NL
+    · simp [specLines, specTail, hx, ih, Nat.add_assoc, Nat.add_comm 1]
+    · simp [specLines, specTail, hx, ih, Nat.add_assoc, Nat.add_comm 1]
+
+theorem specTail_append (a b cur : Bytes) : specTail (a ++ b) cur = specTail b (specTail a cur) := by
+  induction a generalizing cur with
+  | nil => simp [specTail]
+  | cons x xs ih => by_cases hx : x = NL <;> simp [specTail, hx, ih]
+
+theorem specLines_length_le (a : Bytes) (off : Nat) (cur : Bytes) : (specLines a off cur).length ≤ a.length := by
+  induction a generalizing off cur with
+  | nil => simp [specLines]
+  | cons x xs ih =>
+    by_cases hx : x = NL
+    · simp [specLines, hx]; exact ih _ _
+    · simp [specLines, hx]; exact Nat.le_succ_of_le (ih _ _)
+
+/-- shape of what `cutLine` returns: the line ends in its only newline and `buf = line ++ rest` -/
+theorem cutLine_shape {buf line rest} (h : cutLine buf = some (line, rest)) :
+    ∃ pre, line = pre ++ [NL] ∧ buf = line ++ rest ∧ NL ∉ pre := by
+  induction buf generalizing line rest with
+  | nil => simp [cutLine] at h
+  | cons b bs ih =>
+    simp only [cutLine] at h
+    split at h
+    · rename_i hb; simp at h; obtain ⟨rfl, rfl⟩ := h; exact ⟨[], by simp [hb]⟩
+    · rename_i hb
+      split at h
+      · simp at h
+      · rename_i l' r' h'
+        simp at h; obtain ⟨rfl, rfl⟩ := h
+        obtain ⟨pre, h1, h2, h3⟩ := ih h'
+        refine ⟨b :: pre, by simp [h1], by simp [← h2], ?_⟩
+        simp only [List.mem_cons, not_or]
+        exact ⟨fun e => hb e.symm, h3⟩
+
+theorem specLines_nocut_nil {buf} (h : cutLine buf = none) (off : Nat) (cur : Bytes) :
+    specLines buf off cur = [] := by
+  have := specLines_nocut h off cur []
+  simpa [specLines] using this
+
+theorem specTail_nocut {buf} (h : cutLine buf = none) (cur : Bytes) : specTail buf cur = cur ++ buf := by
+  induction buf generalizing cur with
+  | nil => simp [specTail]
+  | cons b bs ih =>
+    simp only [cutLine] at h
+    split at h
+    · simp at h
+    · rename_i hb
+      split at h
+      · rename_i h'; simp [specTail, hb, ih h']
+      · simp at h
+
+theorem specTail_cut {buf line rest} (h : cutLine buf = some (line, rest)) (cur : Bytes) :
+    specTail buf cur = specTail rest [] := by
+  induction buf generalizing line rest cur with
+  | nil => simp [cutLine] at h
+  | cons b bs ih =>
+    simp only [cutLine] at h
+    split at h
+    · rename_i hb; simp at h; obtain ⟨rfl, rfl⟩ := h; simp [specTail, hb]
+    · rename_i hb
+      split at h
+      · simp at h
+      · rename_i l' r' h'
+        simp at h; obtain ⟨rfl, rfl⟩ := h
+        simp [specTail, hb, ih h']
+
+/-! ### the carry relation: what `accumBuf` knows about the current partial line `cur` -/
+
+/-- `accum` (the model's `accumBuf`) versus the real partial line `cur` since the last newline.
+    unlimited: equal. skip mode: equal, or both already over the limit (the worker stops
+    accumulating). cut mode: same first `max` bytes, equal while it fits, at least `max` long
+    once the line is over. -/
+def Carry (cfg : Cfg) (accum cur : Bytes) : Prop :=
+  if cfg.maxSize = 0 then accum = cur
+  else if cfg.cutOff = true then
+    accum.take cfg.maxSize = cur.take cfg.maxSize ∧ (cur.length ≤ cfg.maxSize → accum = cur) ∧
+      (cfg.maxSize < cur.length → cfg.maxSize ≤ accum.length)
+  else accum = cur ∨ (cfg.maxSize < accum.length ∧ cfg.maxSize < cur.length)
+
+theorem Carry.refl (cfg : Cfg) (a : Bytes) : Carry cfg a a := by
+  unfold Carry; split
+  · rfl
+  · split
+    · exact ⟨rfl, fun _ => rfl, fun h => Nat.le_of_lt h⟩
+    · exact Or.inl rfl
+
+/-- the relation the oracle `holds` imposes between observed calls and spec lines -/
+def Match (cfg : Cfg) (calls want : List (Nat × Bytes)) : Prop :=
+  if cfg.maxSize = 0 then calls = want
+  else if cfg.cutOff = true then allCut cfg.maxSize calls want = true
+  else calls = want.filter (fits cfg.maxSize)
+
+theorem allCut_append {max : Nat} {a b c d : List (Nat × Bytes)}
+    (h1 : allCut max a b = true) (h2 : allCut max c d = true) : allCut max (a ++ c) (b ++ d) = true := by
+  induction a generalizing b with
+  | nil => cases b with
+    | nil => simpa using h2
+    | cons _ _ => simp [allCut] at h1
+  | cons x xs ih => cases b with
+    | nil => simp [allCut] at h1
+    | cons y ys =>
+      simp only [allCut, Bool.and_eq_true] at h1
+      simp only [List.cons_append, allCut, Bool.and_eq_true]
+      exact ⟨h1.1, ih h1.2⟩
+
+theorem Match.nil (cfg : Cfg) : Match cfg [] [] := by
+  unfold Match; split
+  · rfl
+  · split <;> simp [allCut]
+
+theorem Match.append {cfg : Cfg} {a b c d : List (Nat × Bytes)}
+    (h1 : Match cfg a b) (h2 : Match cfg c d) : Match cfg (a ++ c) (b ++ d) := by
+  unfold Match at *
+  split
+  · rename_i h; simp only [h, ↓reduceIte] at h1 h2; rw [h1, h2]
+  · rename_i h; simp only [h, ↓reduceIte] at h1 h2
+    split
+    · rename_i hc; simp only [hc, ↓reduceIte] at h1 h2; exact allCut_append h1 h2
+    · rename_i hc; simp only [hc] at h1 h2; simp at h1 h2; rw [h1, h2, List.filter_append]
+
+theorem filter_fits_single {max : Nat} (h : ¬ max = 0) (x : Nat × Bytes) :
+    [x].filter (fits max) = if x.2.length ≤ max then [x] else [] := by
+  have hm : (max == 0) = false := by simpa using h
+  by_cases hx : x.2.length ≤ max <;> simp [List.filter, fits, hm, hx]
+
+/-- one completed line: what the worker emits for it matches the spec line -/
+theorem Match.line {cfg : Cfg} {accum cur pre : Bytes} (hc : Carry cfg accum cur) (off : Nat) :
+    Match cfg (if over cfg accum.length (pre ++ [NL]).length = true then [] else [(off, accum ++ (pre ++ [NL]))])
+      [(off, cur ++ (pre ++ [NL]))] := by
+  unfold Match Carry at *
+  split
+  · rename_i h; simp only [h, ↓reduceIte] at hc; simp [over, h, hc]
+  · rename_i h; simp only [h, ↓reduceIte] at hc
+    split
+    · rename_i hcut; simp only [hcut, ↓reduceIte] at hc
+      obtain ⟨h1, h2, h3⟩ := hc
+      simp only [over, hcut, Bool.not_true, Bool.and_false, Bool.false_and, Bool.false_eq_true, ↓reduceIte,
+        allCut, cutOk, Bool.and_true, beq_self_eq_true, Bool.true_and]
+      split
+      · rename_i hl
+        have : cur.length ≤ cfg.maxSize := by simp at hl; omega
+        simp [h2 this]
+      · rename_i hl
+        simp only [List.length_append, List.length_cons, List.length_nil] at hl
+        by_cases hcl : cur.length ≤ cfg.maxSize
+        · rw [h2 hcl]; simp; omega
+        · have hcl' : cfg.maxSize < cur.length := by omega
+          have ha := h3 hcl'
+          rw [List.take_append_of_le_length ha, List.take_append_of_le_length (Nat.le_of_lt hcl'), h1]
+          simp [← List.append_assoc]; omega
+    · rename_i hcut
+      have hcut' : cfg.cutOff = false := by simpa using hcut
+      simp only [hcut', Bool.false_eq_true, ↓reduceIte] at hc
+      have hm : (cfg.maxSize != 0) = true := by simpa using h
+      simp only [over, hm, hcut', Bool.not_false, Bool.and_true, Bool.true_and, decide_eq_true_eq]
+      rw [filter_fits_single h]
+      simp only [List.length_append, List.length_cons, List.length_nil] at *
+      rcases hc with rfl | ⟨ha, hb⟩
+      · by_cases hl : accum.length + (pre.length + (0 + 1)) > cfg.maxSize
+        · rw [if_pos hl, if_neg (by omega)]
+        · rw [if_neg hl, if_pos (by omega)]
+      · rw [if_pos (by omega), if_neg (by omega)]
+
+theorem Carry.afterRead {cfg : Cfg} {w : W} {c0 : Bytes} (hc : Carry cfg w.accum c0) (rem : Bytes) :
+    Carry cfg (afterRead cfg w rem).accum (c0 ++ rem) := by
+  unfold Carry Worker.afterRead at *
+  split
+  · rename_i h; simp only [h, ↓reduceIte] at hc; simp [h, hc]
+  · rename_i h; simp only [h, ↓reduceIte] at hc
+    have hm : (cfg.maxSize != 0) = true := by simpa using h
+    split
+    · rename_i hcut; simp only [hcut, ↓reduceIte] at hc
+      obtain ⟨h1, h2, h3⟩ := hc
+      simp only [hm, Bool.true_and, decide_eq_true_eq, hcut, Bool.not_true, Bool.false_eq_true, ↓reduceIte]
+      split
+      · rename_i hlen
+        have hcl : cfg.maxSize < c0.length := by
+          by_cases hh : c0.length ≤ cfg.maxSize
+          · rw [h2 hh] at hlen; omega
+          · omega
+        refine ⟨?_, ?_, ?_⟩
+        · rw [List.take_append_of_le_length (by simp; omega), List.take_take,
+            List.take_append_of_le_length (Nat.le_of_lt hcl)]; simpa using h1
+        · intro hh; simp at hh; omega
+        · intro _; simp; omega
+      · rename_i hlen
+        by_cases hh : c0.length ≤ cfg.maxSize
+        · rw [h2 hh]; exact ⟨rfl, fun _ => rfl, fun x => Nat.le_of_lt x⟩
+        · have hcl : cfg.maxSize < c0.length := by omega
+          have ha := h3 hcl
+          refine ⟨?_, ?_, ?_⟩
+          · rw [List.take_append_of_le_length ha, List.take_append_of_le_length (Nat.le_of_lt hcl)]; exact h1
+          · intro hh2; simp at hh2; omega
+          · intro _; simp; omega
+    · rename_i hcut
+      have hcut' : cfg.cutOff = false := by simpa using hcut
+      simp only [hcut', Bool.false_eq_true, ↓reduceIte] at hc
+      simp only [hm, Bool.true_and, decide_eq_true_eq, hcut', Bool.not_false, ↓reduceIte]
+      split
+      · rename_i hlen
+        rcases hc with hc | ⟨ha, hb⟩
+        · right; rw [← hc]; simp; omega
+        · right; simp; omega
+      · rename_i hlen
+        rcases hc with hc | ⟨ha, hb⟩
+        · left; simp [hc]
+        · omega
+
+theorem afterRead_fields (cfg : Cfg) (w : W) (rem : Bytes) :
+    (afterRead cfg w rem).skip = w.skip ∧ (afterRead cfg w rem).scanned = w.scanned ∧
+    (afterRead cfg w rem).out = w.out := by
+  unfold Worker.afterRead; split
+  · split <;> simp
+  · simp
+
+theorem isEmpty_app {α} (a b : List α) : (a ++ b).isEmpty = (a.isEmpty && b.isEmpty) := by
+  cases a <;> simp
+
+theorem dropFirst_append (s : Bool) (a b : List (Nat × Bytes)) :
+    dropFirst s (a ++ b) = dropFirst s a ++ dropFirst (s && a.isEmpty) b := by
+  cases s <;> cases a <;> simp [dropFirst]
+
+/-! ### the invariant through `parseLoop`, `procRead`, `procReads`, `turn`, `turns` -/
+
+/-- what one pass of the parsing loop over `buf` establishes, for every configuration:
+    `cur` is the real partial line before `buf`, `Carry` ties it to `accumBuf`. -/
+structure LoopPost (cfg : Cfg) (base : Nat) (buf : Bytes) (w : W) (cur : Bytes) (r : W × Bytes) : Prop where
+  carry : ∃ c0, specTail buf cur = c0 ++ r.2 ∧ Carry cfg r.1.accum c0
+  skip : r.1.skip = (w.skip && (specLines buf (base + w.scanned) cur).isEmpty)
+  scanned : r.1.scanned = w.scanned + buf.length
+  out : ∃ em, r.1.out = w.out ++ em ∧ Match cfg em (dropFirst w.skip (specLines buf (base + w.scanned) cur))
+
+theorem parseLoop_post (cfg : Cfg) (base : Nat) (buf : Bytes) (w : W) (cur : Bytes)
+    (hc : Carry cfg w.accum cur) : LoopPost cfg base buf w cur (parseLoop cfg base buf w) := by
+  induction h : buf.length using Nat.strongRecOn generalizing buf w cur with
+  | _ n ih =>
+    unfold parseLoop
+    split
+    · rename_i hcut
+      refine ⟨⟨cur, specTail_nocut hcut cur, hc⟩, ?_, rfl, ⟨[], by simp, ?_⟩⟩
+      · simp [specLines_nocut_nil hcut]
+      · rw [specLines_nocut_nil hcut]; cases w.skip <;> simpa [dropFirst] using Match.nil cfg
+    · rename_i line rest hcut
+      have hl := cutLine_length hcut
+      obtain ⟨pre, hline, hbuf, _⟩ := cutLine_shape hcut
+      have hlen : buf.length = line.length + rest.length := by rw [hbuf]; simp
+      have hspec := specLines_cut hcut (base + w.scanned) cur
+      have IH := ih rest.length (by omega) rest
+        { accum := [], scanned := w.scanned + line.length, skip := false,
+          out := if (w.skip || over cfg w.accum.length line.length) = true then w.out
+                 else w.out ++ [(base + (w.scanned + line.length), w.accum ++ line)] }
+        [] (Carry.refl cfg []) rfl
+      obtain ⟨⟨c0, hc0, hc0'⟩, hskip, hscan, ⟨em, hem, hmatch⟩⟩ := IH
+      refine ⟨⟨c0, by rw [specTail_cut hcut]; exact hc0, hc0'⟩, ?_, ?_, ?_⟩
+      · rw [hskip, hspec]; simp
+      · rw [hscan]; simp only; omega
+      · simp only [dropFirst, Bool.false_eq_true, ↓reduceIte] at hmatch
+        rw [hspec, hem]
+        cases hs : w.skip
+        · have hm1 := Match.line (pre := pre) hc (base + w.scanned + line.length)
+          rw [← hline] at hm1
+          have := Match.append hm1 hmatch
+          refine ⟨_, ?_, by simpa [dropFirst, Nat.add_assoc] using this⟩
+          by_cases ho : over cfg w.accum.length line.length = true
+          · simp [ho]
+          · simp [ho]
+        · exact ⟨em, by simp, by simpa [dropFirst, Nat.add_assoc] using hmatch⟩
+
+/-- the invariant carried from read to read (and from turn to turn) -/
+structure ReadPost (cfg : Cfg) (base : Nat) (data : Bytes) (w : W) (cur : Bytes) (w' : W) : Prop where
+  carry : Carry cfg w'.accum (specTail data cur)
+  skip : w'.skip = (w.skip && (specLines data (base + w.scanned) cur).isEmpty)
+  scanned : w'.scanned = w.scanned + data.length
+  out : ∃ em, w'.out = w.out ++ em ∧ Match cfg em (dropFirst w.skip (specLines data (base + w.scanned) cur))
+
+theorem procRead_post (cfg : Cfg) (base : Nat) (buf : Bytes) (w : W) (cur : Bytes)
+    (hc : Carry cfg w.accum cur) : ReadPost cfg base buf w cur (procRead cfg base w buf) := by
+  obtain ⟨⟨c0, h1, h2⟩, hs, hsc, ho⟩ := parseLoop_post cfg base buf w cur hc
+  obtain ⟨f1, f2, f3⟩ := afterRead_fields cfg (parseLoop cfg base buf w).1 (parseLoop cfg base buf w).2
+  unfold procRead
+  exact ⟨by rw [h1]; exact Carry.afterRead h2 _, by rw [f1, hs], by rw [f2, hsc], by rw [f3]; exact ho⟩
+
+theorem procReads_post (cfg : Cfg) (base : Nat) (cs : List Bytes) (w : W) (cur : Bytes)
+    (hc : Carry cfg w.accum cur) : ReadPost cfg base cs.flatten w cur (procReads cfg base cs w) := by
+  induction cs generalizing w cur with
+  | nil =>
+    refine ⟨by simpa [procReads, specTail] using hc, by simp [procReads, specLines], by simp [procReads],
+      ⟨[], by simp [procReads], ?_⟩⟩
+    cases w.skip <;> simpa [specLines, dropFirst] using Match.nil cfg
+  | cons c cs ih =>
+    obtain ⟨h1, h2, h3, ⟨em1, h4, h5⟩⟩ := procRead_post cfg base c w cur hc
+    obtain ⟨g1, g2, g3, ⟨em2, g4, g5⟩⟩ := ih (procRead cfg base w c) (specTail c cur) h1
+    simp only [procReads, List.flatten_cons]
+    refine ⟨by rw [specTail_append]; exact g1, ?_, by rw [g3, h3]; simp; omega, ⟨em1 ++ em2, ?_, ?_⟩⟩
+    · rw [g2, h2, h3, specLines_append, Nat.add_assoc]; simp [Bool.and_assoc, isEmpty_app]
+    · rw [g4, h4, List.append_assoc]
+    · rw [specLines_append, dropFirst_append]
+      rw [h2, h3, ← Nat.add_assoc] at g5
+      exact Match.append h5 g5
+
+/-- one turn, every configuration: the job carried to the next turn and the calls made -/
+structure TurnPost (cfg : Cfg) (job : Job) (data cur : Bytes) (r : Job × List (Nat × Bytes)) : Prop where
+  offset : r.1.curOffset = job.curOffset + data.length
+  carry : Carry cfg r.1.tail (specTail data cur)
+  skip : r.1.skip = (job.skip && (specLines data job.curOffset cur).isEmpty)
+  out : Match cfg r.2 (dropFirst job.skip (specLines data job.curOffset cur))
+
+theorem turn_post (cfg : Cfg) (job : Job) (reads : List Bytes) (cur : Bytes)
+    (hc : Carry cfg job.tail cur) : TurnPost cfg job reads.flatten cur (turn cfg job reads) := by
+  obtain ⟨h1, h2, _, ⟨em, h4, h5⟩⟩ := procReads_post cfg job.curOffset reads ⟨job.tail, 0, job.skip, []⟩ cur hc
+  simp only [Nat.add_zero, List.nil_append] at h2 h4 h5
+  exact ⟨rfl, h1, h2, by simp only [turn]; rw [h4]; exact h5⟩
+
+theorem turns_post (cfg : Cfg) (job : Job) (ts : List (List Bytes)) (cur : Bytes)
+    (hc : Carry cfg job.tail cur) : TurnPost cfg job ts.flatten.flatten cur (turns cfg job ts) := by
+  induction ts generalizing job cur with
+  | nil =>
+    refine ⟨by simp [turns], by simpa [turns, specTail] using hc, by simp [turns, specLines], ?_⟩
+    cases job.skip <;> simpa [turns, specLines, dropFirst] using Match.nil cfg
+  | cons t ts ih =>
+    obtain ⟨h1, h2, h3, h4⟩ := turn_post cfg job t cur hc
+    obtain ⟨g1, g2, g3, g4⟩ := ih (turn cfg job t).1 (specTail t.flatten cur) h2
+    simp only [turns, List.flatten_cons, List.flatten_append]
+    refine ⟨by rw [g1, h1]; simp; omega, by rw [specTail_append]; exact g2, ?_, ?_⟩
+    · rw [g3, h3, h1, specLines_append]; simp [Bool.and_assoc, isEmpty_app]
+    · rw [specLines_append, dropFirst_append]
+      rw [h3, h1] at g4
+      exact Match.append h4 g4
+
+/-- the oracle of the check is the relation `Match` against the (first-line-dropped) spec -/
+theorem holds_iff (cfg : Cfg) (skip : Bool) (base : Nat) (content : Bytes) (calls : List (Nat × Bytes)) :
+    holds cfg skip base content calls = true ↔ Match cfg calls (dropFirst skip (specLines content base [])) := by
+  unfold holds Match
+  split
+  · simp
+  · split <;> simp
+
+/-- `allCut` spelled out: same number of calls as spec lines, and call `i` is `cutOk` for line `i` -/
+theorem allCut_iff {max : Nat} {a b : List (Nat × Bytes)} :
+    allCut max a b = true ↔
+      a.length = b.length ∧ ∀ (i : Nat) (h1 : i < a.length) (h2 : i < b.length), cutOk max a[i] b[i] = true := by
+  induction a generalizing b with
+  | nil => cases b <;> simp [allCut]
+  | cons x xs ih => cases b with
+    | nil => simp [allCut]
+    | cons y ys =>
+      simp only [allCut, Bool.and_eq_true, ih, List.length_cons, Nat.add_right_cancel_iff]
+      constructor
+      · rintro ⟨h0, hl, hi⟩
+        refine ⟨hl, fun i h1 h2 => ?_⟩
+        cases i with
+        | zero => simpa using h0
+        | succ j => simpa using hi j (by omega) (by omega)
+      · rintro ⟨hl, hi⟩
+        exact ⟨by simpa using hi 0 (by omega) (by omega), hl,
+          fun i h1 h2 => by
+            have := hi (i + 1) (by simp; omega) (by simp; omega)
+            simpa only [List.getElem_cons_succ] using this⟩
+
+theorem Carry.eq_of_fits {cfg : Cfg} {accum cur : Bytes} (hc : Carry cfg accum cur)
+    (h : cfg.maxSize = 0 ∨ cur.length ≤ cfg.maxSize) : accum = cur := by
+  unfold Carry at hc
+  split at hc
+  · exact hc
+  · rename_i hm
+    have hle : cur.length ≤ cfg.maxSize := by rcases h with h | h; exact absurd h hm; exact h
+    split at hc
+    · exact hc.2.1 hle
+    · rcases hc with hc | ⟨_, hb⟩
+      · exact hc
+      · omega
+
+/-- at a line boundary nothing is pending -/
+theorem specTail_boundary {pre : Bytes} (h : pre = [] ∨ pre.getLast? = some NL) : specTail pre [] = [] := by
+  rcases h with rfl | h
+  · rfl
+  · obtain ⟨init, rfl⟩ : ∃ init, pre = init ++ [NL] := by
+      cases hp : pre.reverse with
+      | nil => simp at hp; subst hp; simp at h
+      | cons x xs =>
+        have : pre = xs.reverse ++ [x] := by
+          have := congrArg List.reverse hp; simpa using this
+        subst this; simp at h; subst h; exact ⟨_, rfl⟩
+    rw [specTail_append]; simp [specTail]
+
+theorem cutOk_iff {max : Nat} {g w : Nat × Bytes} :
+    cutOk max g w = true ↔
+      g.1 = w.1 ∧ (w.2.length ≤ max → g.2 = w.2) ∧
+      (max < w.2.length → max < g.2.length ∧ g.2.take max = w.2.take max ∧ g.2.getLast? = some NL) := by
+  unfold cutOk
+  by_cases h : w.2.length ≤ max
+  · have : ¬ max < w.2.length := by omega
+    simp [h, this]
+  · have h' : max < w.2.length := by omega
+    simp [h, h', and_assoc]
+
+/-- every spec line ends in its newline -/
+theorem specLines_getLast {c : Bytes} {off : Nat} {cur : Bytes} {x : Nat × Bytes}
+    (h : x ∈ specLines c off cur) : x.2.getLast? = some NL := by
+  induction c generalizing off cur with
+  | nil => simp [specLines] at h
+  | cons b bs ih =>
+    by_cases hb : b = NL
+    · simp only [specLines, hb, ↓reduceIte, List.mem_cons] at h
+      rcases h with rfl | h
+      · simp
+      · exact ih h
+    · simp only [specLines, hb, ↓reduceIte] at h; exact ih h
+
+/-- after the pipeline's cut the event no longer depends on what the worker kept of the middle -/
+theorem cutAtLimit_of_cutOk {max : Nat} {g w : Nat × Bytes} (h : cutOk max g w = true)
+    (hw : w.2.getLast? = some NL) : cutAtLimit max g.2 = cutAtLimit max w.2 := by
+  obtain ⟨_, h2, h3⟩ := cutOk_iff.mp h
+  by_cases hl : w.2.length ≤ max
+  · rw [h2 hl]
+  · have hl' : max < w.2.length := by omega
+    obtain ⟨a, b, c⟩ := h3 hl'
+    simp [cutAtLimit, hl', a, b, c, hw]
+
 end FileD.Worker
